@@ -18,6 +18,7 @@ Anything outside the supported subset raises AnalysisError (exit 2), never a ver
 from __future__ import annotations
 
 import ast
+import re
 from dataclasses import dataclass, field
 
 from .core import AnalysisError
@@ -79,6 +80,12 @@ class Sym:
         """A decimal literal with more digits than a float can hold: float() of it is inf.  (All other numeric
         symbols stand for finite values; digits cannot produce nan.)"""
         return self.kind == "float" and ":OVERFLOW" in self.src
+
+    @property
+    def huge(self) -> bool:
+        """An integer literal whose magnitude exceeds the largest double (309 digits or more).  All other integer symbols stand
+        for integers a float can approximate."""
+        return self.kind == "int" and ":HUGE" in self.src
 
     def as_inf(self):
         return float("-inf") if self.neg else float("inf")
@@ -317,6 +324,12 @@ class PVal:
 @dataclass(frozen=True)
 class MinLen:
     n: int
+
+
+@dataclass(frozen=True)
+class Magnitude:
+    """abs() of a numeric symbol: only its order against constants is known (see Interp.order)."""
+    sym: Sym
 
 
 @dataclass(eq=False)
@@ -996,6 +1009,13 @@ class Interp:
 
     def ev_JoinedStr(self, n, env):
         out = Tmpl()
+        if len(n.values) == 1 and isinstance(n.values[0], ast.FormattedValue) and n.values[0].format_spec is not None:
+            v0 = n.values[0]
+            val0 = self.eval(v0.value, env)
+            if isinstance(val0, ADigest) and val0.kind == "int":
+                spec = self.eval(v0.format_spec, env)
+                if isinstance(spec, Tmpl) and spec.is_literal() and re.fullmatch(r"0?\d*[xXdo]?", spec.text()):
+                    return ADigest(val0.algo, val0.data, "hex", val0.lo, val0.hi, val0.step)   # an injective rendering of the number
         for v in n.values:
             if isinstance(v, ast.Constant):
                 out = out + Tmpl.lit(str(v.value))
@@ -1083,6 +1103,9 @@ class Interp:
             if o.module == "math" and not o.attr and attr in ("inf", "nan", "pi", "e", "tau"):
                 import math as _math
                 return getattr(_math, attr)
+            if o.module == "sys" and o.attr == "float_info" and attr in ("max", "min", "epsilon", "dig", "mant_dig", "max_exp", "max_10_exp"):
+                import sys as _sys
+                return getattr(_sys.float_info, attr)      # IEEE-754 double constants, the same on every CPython build
             return ExtVal(o.module, (o.attr + "." if o.attr else "") + attr)
         if isinstance(o, Builtin) and o.name in ("str", "int", "float", "list", "tuple", "dict", "set", "object"):
             return Builtin(f"{o.name}.{attr}")
@@ -1677,6 +1700,24 @@ class Interp:
                 return False
             return self.choose(f"length order at {site}")
         import math as _math
+        if isinstance(a, Magnitude) != isinstance(b, Magnitude) and (_isnum(a) or _isnum(b)):
+            # |x| against a constant.  The value partition of numeric symbols: an overflowing decimal is inf, any other decimal is a
+            # finite double (at most sys.float_info.max), an integer literal has any magnitude
+            import sys as _sys
+            mag, c, flip = (a, b, False) if isinstance(a, Magnitude) else (b, a, True)
+            opn = type(op)
+            if flip:
+                opn = {ast.Lt: ast.Gt, ast.LtE: ast.GtE, ast.Gt: ast.Lt, ast.GtE: ast.LtE}[opn]
+            if mag.sym.overflow:
+                v = float("inf")
+                return {ast.Lt: v < c, ast.LtE: v <= c, ast.Gt: v > c, ast.GtE: v >= c}[opn]
+            if c < 0 or (c == 0 and opn in (ast.GtE, ast.Lt)):
+                return opn in (ast.Gt, ast.GtE)
+            if mag.sym.huge and c <= _sys.float_info.max:
+                return opn in (ast.Gt, ast.GtE)
+            if not mag.sym.huge and (c > _sys.float_info.max or (c == _sys.float_info.max and opn in (ast.Gt, ast.LtE))):
+                return opn in (ast.Lt, ast.LtE)
+            return self.choose(f"abs({_describe(mag.sym)}) {opn.__name__} {c!r} at {site}")
         numsym = lambda x: isinstance(x, Sym) and x.kind in ("int", "float")   # noqa: E731
         if (numsym(a) or _isnum(a)) and (numsym(b) or _isnum(b)):
             # the value partition of numeric symbols: overflowing decimals are +-inf, all others finite
@@ -2342,6 +2383,11 @@ class Interp:
                 return not self.num_compare("Eq", args[0], 0, site)
             if name in ("str", "repr", "format"):
                 raise Unsupported(f"{name}() of an abstract number at {site}")
+            if name == "round" and isinstance(args[0], Num) and (len(args) == 1 or isinstance(args[1], int)):
+                # round to k decimals: floor(x*10**k + 1/2) / 10**k (ties, which Python rounds to even, are a null set)
+                k = args[1] if len(args) > 1 else 0
+                scale = sp.Integer(10) ** k
+                return Num(sp.floor(args[0].e * scale + sp.Rational(1, 2)) / scale)
             if name in ("round", "divmod", "pow"):
                 raise Unsupported(f"{name}() of an abstract number at {site}")
         if name == "len":
@@ -2510,6 +2556,8 @@ class Interp:
             nm = args[1]
             if isinstance(nm, Tmpl) and nm.is_literal() and isinstance(args[0], Obj):
                 return nm.text() in args[0].attrs
+        if name == "abs" and len(args) == 1 and isinstance(args[0], Sym) and args[0].kind in ("int", "float"):
+            return Magnitude(args[0])
         raise Unsupported(f"builtin {name}({', '.join(type(a).__name__ for a in args)}) at {site}")
 
     def method(self, recv, name, args, kwargs, site):
@@ -2873,6 +2921,8 @@ class Interp:
             if "data" in kwargs:
                 rest.append(kwargs["data"])
             return AHash(algo.lower(), rest[:1])
+        if q in ("zlib.crc32", "zlib.adler32", "binascii.crc32") and args and getattr(self, "hash_domain", False):
+            return ADigest(q, tuple(args[:1]), "int")      # a 32-bit checksum: a value of the data, but not a hashlib digest
         if q in ("binascii.hexlify",) and args and isinstance(args[0], ADigest) and args[0].kind == "bytes":
             return self.method(args[0], "hex", [], {}, site)
         if q == "sys.getrecursionlimit":
